@@ -29,6 +29,8 @@ struct TCtx
     bool woken = false;
     long expected_future = 0;
     int depth = 0; // system lock nesting of this thread (harness view)
+    std::vector<int> lock_style;                 // how each level was taken (0 system_lock, 1 igris::syslock, 2 igris::syslock_guard)
+    std::vector<igris::syslock_guard *> guards;  // live guard objects, innermost last
 };
 
 struct World
@@ -133,7 +135,13 @@ void run_op(int tid, const Op &o)
     switch (o.k)
     {
     case O_LOCK:
-        system_lock();
+        if (o.prio == 2)
+            c.guards.push_back(new igris::syslock_guard);
+        else if (o.prio == 1)
+            igris::syslock().lock();
+        else
+            system_lock();
+        c.lock_style.push_back(o.prio);
         if (w.cs_owner != -1 && w.cs_owner != tid)
             latch("system_lock_two_owners", fmt("T%d entered the system lock while T%d is inside (nesting depth %d)", tid, w.cs_owner, w.ctx[w.cs_owner].depth));
         w.cs_owner = tid;
@@ -147,7 +155,23 @@ void run_op(int tid, const Op &o)
         c.depth--;
         if (c.depth == 0)
             w.cs_owner = -1;
-        system_unlock();
+        {
+            int style = c.lock_style.empty() ? 0 : c.lock_style.back();
+            if (!c.lock_style.empty())
+                c.lock_style.pop_back();
+            if (style == 2 && !c.guards.empty())
+            {
+                igris::syslock_guard *g = c.guards.back();
+                c.guards.pop_back();
+                delete g;
+            }
+            else if (style == 1)
+                igris::syslock().unlock();
+            else
+                system_unlock();
+        }
+        if (syslock_counter() != c.depth)
+            latch("system_lock_counter", fmt("T%d: syslock_counter()=%d after leaving down to a nesting depth of %d", tid, syslock_counter(), c.depth));
         break;
     case O_SAVE_RESTORE:
     {
@@ -378,6 +402,9 @@ std::vector<Program> small_programs()
         {{wait(0), push(1)}, {push(101), one(0, 2)}},
         {{wait(0)}, {lock, all(0, 4), sr, unlock}},
         {{wait(0), wait(1)}, {one(1, 1), one(0, 2)}},
+        // the C++ entry points: nested igris::syslock_guard objects and igris::syslock against a plain locker
+        {{Op{O_LOCK, 0, 2, 0}, Op{O_LOCK, 0, 2, 0}, unlock, yld, unlock}, {lock, unlock}},
+        {{Op{O_LOCK, 0, 1, 0}, Op{O_LOCK, 0, 2, 0}, unlock, unlock}, {Op{O_LOCK, 0, 2, 0}, yld, unlock}},
     };
 }
 unsigned __int128 enum_size(int) { return small_programs().size(); }
